@@ -197,7 +197,8 @@ func c18Identity(c *lib.Ctx, cs c18Case, count bool) []lib.Violation {
 	return vs
 }
 
-var c18MonitorOps = []string{"db:load:true", "db:load:false", "db:save:true", "search:hit", "search:miss"}
+// a 4th field "zero" / "neg": the operation took no measurable time (coarse clock) or the clock stepped back
+var c18MonitorOps = []string{"db:load:true", "db:load:false", "db:save:true", "search:hit", "search:miss", "search:hit:zero", "db:load:true:neg"}
 
 func c18Monitor(c *lib.Ctx, cs c18Case, count bool) []lib.Violation {
 	var vs []lib.Violation
@@ -207,11 +208,17 @@ func c18Monitor(c *lib.Ctx, cs c18Case, count bool) []lib.Violation {
 		hits, misses := 0, 0
 		for _, op := range cs.Ops {
 			p := strings.Split(op, ":")
+			dur, nres, qlen := time.Millisecond, 3, 7
+			if len(p) > 3 && p[0] == "db" {
+				dur = -time.Millisecond
+			} else if len(p) > 2 && p[0] == "search" && p[len(p)-1] == "zero" {
+				dur, nres, qlen = 0, 0, 0
+			}
 			if p[0] == "db" {
-				pm.RecordDatabaseOperation(p[1], time.Millisecond, p[2] == "true")
+				pm.RecordDatabaseOperation(p[1], dur, p[2] == "true")
 				wantDB["operation="+p[1]+",success="+p[2]+","]++
 			} else {
-				pm.RecordSearchOperation(time.Millisecond, 3, p[1] == "hit", 7)
+				pm.RecordSearchOperation(dur, nres, p[1] == "hit", qlen)
 				if p[1] == "hit" {
 					hits++
 				} else {
@@ -443,7 +450,7 @@ func c18Run(c *lib.Ctx) {
 func init() {
 	lib.Register(&lib.Check{
 		ID: "C18", Level: "model_checking",
-		Rule:      "(identity) names {m, 'm:a=1', ''} x all 28 tag maps with <=3 tags over keys {a,b,c} and values {1,2} (plus nil and empty) x {counter, gauge, histogram, timer}: the metric is requested twice under EVERY assignment of iteration orders to the tag-map range points of the key computation (full DFS over the choice tree, all n! orders per point); both requests must return the same pointer, both events must land in it, GetAllMetrics must list one series. (monitor) every sequence of <=3 (quick) / <=4 (thorough) calls of RecordDatabaseOperation(load ok / load failed / save ok) and RecordSearchOperation(hit / miss) under every order assignment (cap 3000 schedules per sequence, reported): per-identity and total counts in the report equal the operations recorded, one series per identity. (accounting) every sequence of 4 (quick) / 5 (thorough) operations over {Inc, Add(3), Observe(0.125|0.0004|1.005|7|20000: binary fractions, values below and not a multiple of 1/1000, above the last bucket), Set(2.5), Reset}: counter, histogram count / exact sum / mean, gauge, percentile monotonicity and GetAllMetrics after every step. (concurrent) the collector scenarios of the schedule explorer: two goroutines creating the same new series + a third observing and listing (S5), three goroutines incrementing one counter / gauge (S9) under every interleaving with <=2 preemptions, monitored searches (S4) with <=1: same pointer, no lost increment, one series. states = cases; transitions = executions under distinct order assignments / schedules",
+		Rule:      "(identity) names {m, 'm:a=1', ''} x all 28 tag maps with <=3 tags over keys {a,b,c} and values {1,2} (plus nil and empty) x {counter, gauge, histogram, timer}: the metric is requested twice under EVERY assignment of iteration orders to the tag-map range points of the key computation (full DFS over the choice tree, all n! orders per point); both requests must return the same pointer, both events must land in it, GetAllMetrics must list one series. (monitor) every sequence of <=3 (quick) / <=4 (thorough) calls of RecordDatabaseOperation(load ok / load failed / save ok) and RecordSearchOperation(hit / miss / a hit that took no time and found nothing) and a load recorded with a negative duration, under every order assignment (cap 3000 schedules per sequence, reported): per-identity and total counts in the report equal the operations recorded, one series per identity. (accounting) every sequence of 4 (quick) / 5 (thorough) operations over {Inc, Add(3), Observe(0.125|0.0004|1.005|7|20000: binary fractions, values below and not a multiple of 1/1000, above the last bucket), Set(2.5), Reset}: counter, histogram count / exact sum / mean, gauge, percentile monotonicity and GetAllMetrics after every step. (concurrent) the collector scenarios of the schedule explorer: two goroutines creating the same new series + a third observing and listing (S5), three goroutines incrementing one counter / gauge (S9) under every interleaving with <=2 preemptions, monitored searches (S4) with <=1: same pointer, no lost increment, one series. states = cases; transitions = executions under distinct order assignments / schedules",
 		Assume:    []string{"only map ranges inside internal/metrics are explored here; dyadic observation values make the exact sum order-independent", "scheduling points = sync / atomic operations (build overlay shims); deeper bounds of the same scenarios run under C11"},
 		QuickSecs: 120, ThorSecs: 900, Graph: true,
 		Run: c18Run,
